@@ -153,7 +153,7 @@ func (i *interpreter) aeadSeal(a *aeadObj, dst, nonce, pt, ad []value) value {
 	if i.ps != nil {
 		i.ps.sealRecs = append(i.ps.sealRecs, &sealRecord{key: a.key, nonce: append([]value(nil), nonce...), pt: append([]value(nil), pt...), ct: ct})
 	}
-	return append(append([]value(nil), dst...), ct...)
+	return append(dst, ct...) // appends in place when dst has capacity, like the real Seal
 }
 
 // aeadOpen: succeeds exactly when (key, nonce, ciphertext) equal a recorded seal (ideal AEAD:
@@ -193,7 +193,7 @@ func (i *interpreter) aeadOpen(fr *frame, a *aeadObj, dst, nonce, ct, ad []value
 				m = i.andV(m, i.equalsV(tU8, a.key[k], r.key[k]))
 			}
 			if m != false && i.truth(m) {
-				return tuple{append(append([]value(nil), dst...), r.pt...), iface{}}
+				return tuple{append(dst, r.pt...), iface{}} // in place when dst has capacity (callers may alias the ciphertext)
 			}
 		}
 	}
@@ -205,7 +205,7 @@ func (i *interpreter) aeadOpen(fr *frame, a *aeadObj, dst, nonce, ct, ad []value
 		if err != nil {
 			return fail()
 		}
-		return tuple{append(append([]value(nil), dst...), vals(pt)...), iface{}}
+		return tuple{append(dst, vals(pt)...), iface{}}
 	}
 	return fail()
 }
